@@ -56,11 +56,10 @@ CLAIMS = {
              "bond configuration: chosen edges and plaquettes form a tree grown from plaquette 0 (each edge two-sided, joins a new plaquette to an included one; "
              "edges and plaquettes pairwise different; all linked to plaquette 0); boundary array = edges with exactly one included side; on a connected plaquette "
              "graph no iteration fails, so F-1 edges and all F plaquettes; digits of n injective below 2^(F-1); bonds off the tree untouched; different n give "
-             "different flux sectors. Model run with the implementation's recorded argsort results must reproduce edges_in exactly; every flipped configuration and "
+             "different flux sectors; the image is precisely the parity class of the base configuration (sectors_parity, sectors_reach, enumeration_precisely: phi is produced by some n < 2^(F-1) iff prod phi = prod of base fluxes). Model run with the implementation's recorded argsort results must reproduce edges_in exactly; every flipped configuration and "
              "its fluxes are compared; the statement (incl. parity class coverage on closed lattices by counting) is evaluated on the implementation.",
-        note="Trusted: Lean kernel/Mathlib/standard axioms; harness; numpy argsort/unique (recorded resp. modelled by an insertion sort). 'Image = parity class' on closed "
-             "lattices is decided by counting on the implementation (2^(F-1) distinct sectors, each with the parity of C05.global_product), the surjectivity "
-             "theorem itself is not yet proved in Lean. 'Does not modify its input' is checked dynamically here and statically under C15.",
+        note="Trusted: Lean kernel/Mathlib/standard axioms; harness; numpy argsort/unique (recorded resp. modelled by an insertion sort). 'Image = parity class' is proved (enumeration_precisely) and also counted on the implementation "
+             "(2^(F-1) distinct sectors, each with the parity of C05.global_product). 'Does not modify its input' is checked dynamically here and statically under C15.",
         ref="§7 C14"),
     "C06": dict(
         technique="Lean 4 proof (solver invariant flux·toFlip = target; two-ends law for chains; parity/residual contract; translated ansatz) + model replay with recorded paths",
